@@ -9,10 +9,10 @@
 EXTENDS GenDoc
 
 FaultKinds == <<"DupTable", "DupAlias", "AliasIsKey", "DupEnum", "DupGroup", "DupGroupItem", "DupRef",
-                "DupRefInline", "EmptyTable", "RefNoTable", "RefNoColumn", "IdxNoColumn", "GroupNoTable">>
+                "DupRefInline", "DupInlineTwice", "EmptyTable", "RefNoTable", "RefNoColumn", "IdxNoColumn", "GroupNoTable">>
 
 RuleClass(k) ==
-  CASE k \in {"DupTable", "DupAlias", "AliasIsKey", "DupEnum", "DupGroup", "DupRef", "DupRefInline"} -> DVE
+  CASE k \in {"DupTable", "DupAlias", "AliasIsKey", "DupEnum", "DupGroup", "DupRef", "DupRefInline", "DupInlineTwice"} -> DVE
     [] k = "DupGroupItem" -> "ValidationError"
     [] k = "EmptyTable" -> "SyntaxError"
     [] k \in {"RefNoTable", "GroupNoTable"} -> "TableNotFoundError"
@@ -52,6 +52,7 @@ Applicable(base, k) ==
     [] k = "DupRefInline" -> \E i \in DOMAIN CollectedRefs(base) :
                                 LET r == CollectedRefs(base)[i] IN
                                 ~r.inline /\ Len(r.left.cols) = 1 /\ r.name = "" /\ r.onupdate = "" /\ r.ondelete = "" /\ r.type # "<>"
+    [] k = "DupInlineTwice" -> \E i \in DOMAIN tabs : \E c \in DOMAIN tabs[i].cols : tabs[i].cols[c].refs # <<>>
     [] OTHER -> TRUE
 
 Inject(sd, base, k) ==
@@ -92,6 +93,14 @@ Inject(sd, base, k) ==
              pos == Where(base, "table")[ti]
              ci == ColIdx(tabs[ti], r.left.cols[1])
          IN [base EXCEPT ![pos].cols[ci].refs = Append(@, [type |-> r.type, addr |-> RespellCols(sd, 914, tabs, r.right)])]
+    [] k = "DupInlineTwice" ->
+         \* the same inline reference written twice on one column, letter for letter or in another admissible spelling
+         LET poss == Idxs(base, LAMBDA x : x.d = "table" /\ \E c \in DOMAIN x.cols : x.cols[c].refs # <<>>)
+             pos == PickPos(sd, 925, poss)
+             ci == PickPos(sd, 926, Idxs(base[pos].cols, LAMBDA c : c.refs # <<>>))
+             r == PickPos(sd, 927, base[pos].cols[ci].refs)
+         IN [base EXCEPT ![pos].cols[ci].refs =
+               Append(@, [type |-> r.type, addr |-> IF Coin(sd, 928, 60) THEN r.addr ELSE RespellCols(sd, 929, tabs, r.addr)])]
     [] k = "EmptyTable" ->
          InsertSomewhere(sd, base, [NewTable("", "zz_new", "", <<>>) EXCEPT !.note = IF Coin(sd, 915, 50) THEN "only a note" ELSE ""])
     [] k = "RefNoTable" ->
